@@ -157,9 +157,13 @@ def check(ctx, run):
             if k == "exit":
                 stack.pop()
                 continue
+            where = (stack[-1] if stack else fit.qualname).rsplit(".", 1)[-1]
+            if k == "obj_setattr" and isinstance(e.get("obj"), Obj) and e["obj"].name == "hedger" and e["attr"] not in ("training",) and not e["attr"].startswith("__"):
+                # anything fit() leaves on the hedger (a kept optimiser, a cached binding) makes the next fit() differ from a fresh reference loop
+                problems.append(f"{where}: stores hedger.{e['attr']} (state carried over to the next call)")
+                continue
             if any(f.endswith("Hedger._configure_optimizer") for f in stack):
                 continue
-            where = (stack[-1] if stack else fit.qualname).rsplit(".", 1)[-1]
             if k == "loop_begin" and has_handle(e["over"], tainted):
                 tainted.add(e["var"])
             elif k == "inplace" and has_handle(e["target"], tainted):
@@ -211,7 +215,16 @@ def check(ctx, run):
         problems.append("no separate treatment of lazy (uninitialised) parameters")
     for lazy, rs in lazy_paths.items():
         for r in rs:
+            kept = sorted({e["attr"] for e in r["events"] if e["kind"] == "obj_setattr" and e.get("obj") is hc and not e["attr"].startswith("__") and e["attr"] != "training"})
+            if kept:
+                problems.append(f"stores hedger.{', hedger.'.join(kept)}: the optimiser (its moments, its parameter list) is carried over to the next fit() instead of being constructed afresh")
             v = r["value"]
+            if isinstance(v, Op) and v.op == "call" and v.args[0] == OptCls:
+                pass
+            elif kept:
+                # the value came back through the stored attribute: judge what was stored
+                stored = [e["value"] for e in r["events"] if e["kind"] == "obj_setattr" and e.get("obj") is hc and e["attr"] in kept]
+                v = stored[-1] if stored else v
             arg = v.args[1] if isinstance(v, Op) and v.op == "call" and v.args[0] == OptCls and len(v.args) == 2 and not v.kw else None
             while isinstance(arg, Op) and arg.op in ("py_list", "py_tuple", "iter", "list", "tuple") and len(arg.args) == 1:
                 arg = arg.args[0]
